@@ -220,12 +220,18 @@ func storeSlashingProtection(ctx context.Context, protection *SlashingProtection
 			if err != nil {
 				return errors.Wrap(err, "invalid attestation source epoch")
 			}
+			if sourceEpoch < 0 {
+				return errors.New("invalid attestation source epoch")
+			}
 			if sourceEpoch > keyProtection.HighestAttestedSourceEpoch {
 				keyProtection.HighestAttestedSourceEpoch = sourceEpoch
 			}
 			targetEpoch, err := strconv.ParseInt(attestation.TargetEpoch, 10, 64)
 			if err != nil {
 				return errors.Wrap(err, "invalid attestation target epoch")
+			}
+			if targetEpoch < 0 {
+				return errors.New("invalid attestation target epoch")
 			}
 			if targetEpoch > keyProtection.HighestAttestedTargetEpoch {
 				keyProtection.HighestAttestedTargetEpoch = targetEpoch
@@ -237,24 +243,31 @@ func storeSlashingProtection(ctx context.Context, protection *SlashingProtection
 			if err != nil {
 				return errors.Wrap(err, "invalid proposal slot")
 			}
+			if slot < 0 {
+				return errors.New("invalid proposal slot")
+			}
 			if slot > keyProtection.HighestProposedSlot {
 				keyProtection.HighestProposedSlot = slot
 			}
 		}
 
-		existingKeyProtection, exists := existingProtection[key]
-		if exists {
-			// We already have an entry; only add this if it contains newer data.
-			if existingKeyProtection.HighestAttestedSourceEpoch <= keyProtection.HighestAttestedSourceEpoch &&
-				existingKeyProtection.HighestAttestedTargetEpoch <= keyProtection.HighestAttestedTargetEpoch &&
-				existingKeyProtection.HighestProposedSlot <= keyProtection.HighestProposedSlot {
-				protectionMap[key] = keyProtection
-			} else {
-				fmt.Fprintf(os.Stdout, "Existing entry for public key %#x contains newer data; not importing\n", key)
+		// Merge field by field with the existing entry, and with any earlier entry for the
+		// same key in the file, so that an import never lowers or drops a protection value.
+		for _, other := range []*rules.SlashingProtection{existingProtection[key], protectionMap[key]} {
+			if other == nil {
+				continue
 			}
-		} else {
-			protectionMap[key] = keyProtection
+			if other.HighestAttestedSourceEpoch > keyProtection.HighestAttestedSourceEpoch {
+				keyProtection.HighestAttestedSourceEpoch = other.HighestAttestedSourceEpoch
+			}
+			if other.HighestAttestedTargetEpoch > keyProtection.HighestAttestedTargetEpoch {
+				keyProtection.HighestAttestedTargetEpoch = other.HighestAttestedTargetEpoch
+			}
+			if other.HighestProposedSlot > keyProtection.HighestProposedSlot {
+				keyProtection.HighestProposedSlot = other.HighestProposedSlot
+			}
 		}
+		protectionMap[key] = keyProtection
 	}
 	if err := rulesSvc.ImportSlashingProtection(ctx, protectionMap); err != nil {
 		return errors.Wrap(err, "failed to obtain slashing protection")
